@@ -348,7 +348,7 @@ def run(ctx, cases=None):
     else:
         cases = [dict(c, term=tuplify(c["term"])) for c in cases]
         res.rule = "replay"
-    from multiprocessing import Pool
+    from ..common import Pool
     with Pool(16) as pool:
         events = pool.map(make_event, cases, chunksize=100)
     fails, st = tlc.validate_sharded("TraceEval", "TraceEval.cfg", events, ctx.work, shard_size=max(300, len(events) // 32 + 1))
